@@ -32,6 +32,8 @@ def run_job(job):
     E = np.zeros((n, n))
     I_n = np.eye(n)
     amp_limit = job.get("amp_limit")
+    every = job.get("checkpoint_every")
+    out["checkpoints"] = []
     nrm = lambda A: float(np.linalg.norm(A, 2)) if A.size else 0.0  # noqa: E731
     Mn = max([abs(float(v)) for v in defn.get("process_noise", {}).values()] + [0.0])
     for i, op in enumerate(job["ops"]):
@@ -91,6 +93,8 @@ def run_job(job):
         if En > 0:
             out["defect_over_bound"] = max(out["defect_over_bound"], defect / En)
         out["steps_done"] = i + 1
+        if every and (i + 1) % every == 0 and len(out["checkpoints"]) < 64:
+            out["checkpoints"].append({"step": i + 1, "cov": [[float(x).hex() for x in row] for row in P], "bound_abs": En})
     return out
 
 
